@@ -33,7 +33,7 @@ fn lookup(id: &str) -> Option<(RunFn, ReplayFn)>
         "C01" => Some((props::c01::run, props::c01::replay)),
         "C02" => Some((props::c02::run, props::c02::replay)),
         "C03" => Some((props::schedp::run_c03, props::schedp::replay_c03)),
-        "C04" => Some((props::schedp::run_c04, props::schedp::replay_c04)),
+        "C04" => Some((props::realp::run_c04, props::realp::replay_c04)),
         "C05" => Some((props::schedp::run_c05, props::schedp::replay_c05)),
         "C06" => Some((props::schedp::run_c06, props::schedp::replay_c06)),
         "C07" => Some((props::audits::run_c07, props::audits::replay_c07)),
@@ -42,7 +42,7 @@ fn lookup(id: &str) -> Option<(RunFn, ReplayFn)>
         "C17" => Some((props::c17::run, props::c17::replay)),
         "C18" => Some((props::c18::run, props::c18::replay)),
         "C19" => Some((props::c19::run, props::c19::replay)),
-        "C20" => Some((props::audits::run_c20, props::audits::replay_c20)),
+        "C20" => Some((props::realp::run_c20, props::realp::replay_c20)),
         "C10" => Some((props::c10::run, props::c10::replay)),
         "C11" => Some((props::c11::run, props::c11::replay)),
         "C12" => Some((props::c12::run, props::c12::replay)),
